@@ -22,8 +22,7 @@ def run(ctx):
         g2 = ctx.instance("G2_C09_" + tag, "Ttl", GEN_W, dict(base, Datas={"a", "b"}, MaxOps=5 if ctx.thorough else 4))
         h = ctx.generate(g2, workers=4, timeout=1800)
         h = [x for x in h if any(op["ev"] == "age" for op in x)]
-        if not ctx.thorough:
-            h = rng.sample(h, min(len(h), 250))
+        h = rng.sample(h, min(len(h), 3000 if ctx.thorough else 250))
         g3 = ctx.instance("G3_C09_" + tag, "Ttl", GEN_ALL, dict(base, Datas={"a", "b"}, BlobTtls={"", "3m", "1h", "2h"},
                                                               Ages={2, 5, 70, 200}, MaxOps=9))
         h += ctx.generate(g3, simulate=600 if ctx.thorough else 60, depth=10)
@@ -61,7 +60,7 @@ def run(ctx):
                 "heartbeat-driven volume expiry; G3 random depth 9) on volumes with TTL none / 3m / 1h; ageing rewrites every "
                 "stored timestamp and the file mtime; every key read after every step; plus one execution enumerating "
                 "SecondsToTTL for 0..7300 s and unit boundaries; non-trivial = contains ageing and a successful read")
-    ctx.exhaustive = ctx.thorough
+    ctx.exhaustive = False
     ctx.assumptions += ["time passes only through the ageing step (timestamps shifted by whole minutes; comparisons never hit an "
                         "exact boundary because the age set cannot sum to a TTL)",
                         "Store-level API; volume expiry through Store.CollectHeartbeat with a 1 GiB volume size limit",
